@@ -915,6 +915,24 @@ func includeBudget(p *Prog) (bool, string) {
 			return false, "Parser.included (the pointer to the include counter shared by the whole parse) is also stored at " + p.IPos(bad) + " in " + fnName(f) + ": the nested parser loses the counter it was handed and counts from zero, so the bound on the number of included files is gone"
 		}
 	}
+	// the counter itself only ever grows: every store through the pointer is the increment (a reset
+	// in Parse — run again for every included file, on the shared counter — renews the allowance
+	// at every inclusion and the bound never fires)
+	for _, f := range p.AllFuncs {
+		var bad ssa.Instruction
+		eachInstrRaw(f, func(in ssa.Instruction) {
+			st, ok := in.(*ssa.Store)
+			if !ok || bad != nil || !isFieldLoad(st.Addr, "inputrc.Parser", "included") {
+				return
+			}
+			if !inc(in) {
+				bad = in
+			}
+		})
+		if bad != nil {
+			return false, "the include counter shared by the whole parse is assigned something other than itself plus a constant at " + p.IPos(bad) + " in " + fnName(f) + ": a reset there is run again by every nested parse, so the allowance is renewed at each inclusion and the bound on the number of included files never fires"
+		}
+	}
 	return true, ""
 }
 
